@@ -1561,12 +1561,14 @@ func runTransactions(txnLock *sync.RWMutex, path string, lockPath *string) error
 		return fis[i].Name() < fis[j].Name()
 	})
 
+	txnRoot := txnDir
 	for _, txnSubDirName := range allTxnSubDirNames {
 		if fs.IsTemporaryFileName(txnSubDirName) {
 			// Skip temporary files, which could be left after unclean shutdown.
 			continue
 		}
-		txnDir = fileops.Join(txnDir, txnSubDirName)
+		// every transaction file lives directly in the txn directory, not below the previous transaction file
+		txnDir = fileops.Join(txnRoot, txnSubDirName)
 		if fileops.GetFsType(txnDir) != fileops.Obs {
 			txnDir = fileops.NormalizeDirPath(txnDir)
 		}
